@@ -175,6 +175,13 @@ func reqVals(id int) (method, url, remote, ua, ref, custom, host string) {
 		remote = fmt.Sprintf("2001:db8::%x", id) // an IPv6 literal without port or brackets (what real-IP middleware leaves behind)
 	case 9:
 		remote = "::1"
+	case 10:
+		// absolute-form request target (what a forward proxy receives, or a client-side request object)
+		url = fmt.Sprintf("http://proxy-r%dx.example/abs/r%dx?q=r%dx", id, id, id)
+	case 11:
+		url = fmt.Sprintf("https://user-r%dx@proxy-r%dx.example:8443", id, id) // absolute, with userinfo and port, empty path
+	case 12:
+		url = fmt.Sprintf("/p%%20q/r%dx?a=b%%26c&d=%%e9", id) // escapes in path and query
 	}
 	return
 }
